@@ -370,11 +370,19 @@ def get_attr(I, obj, name):
         hook = I.registry.opaque_attr
         if hook is not None:
             return hook(I, obj, name)
+        attrs = getattr(obj, "attrs", None)
+        if attrs is not None:
+            if name in attrs:
+                return attrs[name]
+            I.raise_("AttributeError", name)
     if isinstance(obj, SSeq):
         return sseq_method(I, obj, name)
     h = I.registry.getattr_fallback
     if h is not None:
         return h(I, obj, name)
+    if obj is None or isinstance(obj, (SV, int, float, bool, fractions.Fraction, Infinity)):
+        if not name.startswith("__") and name not in ("real", "imag", "numerator", "denominator", "is_integer", "conjugate"):
+            I.raise_("AttributeError", name)
     raise PyvcError(f"attribute {name!r} of {obj!r} not modelled (line {I.lineno})")
 
 
@@ -1334,11 +1342,23 @@ class ContextManagerVal:
         self.exit = exit_
 
 
+class AnyException(Exception):
+    """Stands for an arbitrary exception class raised by an unknown callee."""
+
+
 def call_opaque(I, f, args, kwargs):
+    """Unknown callee (user/library callback): returns any value or raises any Exception.
+    Assumption (listed in evidence): it does not modify the modelled heap."""
     h = I.registry.opaque_call
     if h is not None:
         return h(I, f, args, kwargs)
-    raise NeedsContract(f"call of opaque value {f!r}")
+    if getattr(f, "total", False):
+        return Opaque(f"{f.name}()")
+    if I.eng.choose(2, "opaque-raises?") == 1:
+        from .interp import SymRaise
+
+        raise SymRaise(PExc(AnyException, (f"raised by {f.name}",)))
+    return Opaque(f"{f.name}()")
 
 
 # ------------------------------------------------------------------------------------------------
@@ -2086,6 +2106,12 @@ class NumbersNumber:
     name = "numbers.Number"
 
 
+def _make_pickle(I):
+    load, dump = Opaque("pickle.load"), Opaque("pickle.dump")
+    return NativeModule("pickle", {"load": load, "dump": dump})
+
+
+EXTRA_MODULES["pickle"] = _make_pickle
 EXTRA_MODULES["numbers"] = lambda I: NativeModule("numbers", {"Real": NumbersReal, "Number": NumbersNumber})
 
 
